@@ -493,6 +493,191 @@ def run_scenario(ctx, sc, acc):
         publish.DEFAULT_MUTABLE_MAX_SEGMENT_SIZE = saved_seg
 
 
+
+# ----------------------------------------------------------------------------- (d) grids shaped by servers going offline
+
+def gen_offline(rng):
+    """Versions written while different stretches of the file's permuted server list are offline (so that old
+    shares stay behind on servers that later come back), then check / repair by a second client."""
+    S = rng.randrange(5, 13)
+    k = rng.randrange(1, 4)
+    n = rng.randrange(k, min(6, S - 1) + 1)
+    nver = rng.randrange(2, 5)
+    offline = []
+    stale_head = rng.random() < 0.6
+    for j in range(nver):
+        if stale_head and j == nver - 2:
+            # the head servers are online for the older version ...
+            a = rng.randrange(k, min(2 * k, S - 2) + 1)
+            b = rng.randrange(a, min(S - 1, a + rng.randrange(0, S)) + 1)
+            offline.append(list(range(a, b)))
+        elif stale_head and j == nver - 1:
+            # ... and offline when the newest version is written
+            a = rng.randrange(max(1, k), min(S - 1, 2 * k + 1) + 1)
+            offline.append(list(range(0, a)))
+        elif rng.random() < 0.5:
+            a = rng.randrange(0, S)
+            offline.append(list(range(a, min(S - 1 + (1 if a else 0), a + rng.randrange(0, S)))))
+        else:
+            offline.append(sorted(rng.sample(range(S), rng.randrange(0, S - 1))))
+    offline = [[x for x in o if x < S][:S - 1] for o in offline]
+    return {"family": "offline", "servers": S, "k": k, "n": n, "fmt": rng.choice("sm"),
+            "sched": rng.randrange(1 << 30), "policy": rng.choice(["fifo", "random", "random", "lifo"]),
+            "contents": [(b"version %d " % j + rng.randbytes(rng.choice([4, 20, 40]))).hex() for j in range(nver)],
+            "offline": offline, "how": rng.choice(["repair", "repair", "check_and_repair"]),
+            "verify": rng.random() < 0.3, "force": rng.random() < 0.3}
+
+
+def run_offline_scenario(ctx, sc):
+    import grid
+    from allmydata.mutable import publish
+    from allmydata.mutable.publish import MutableData
+    from allmydata.mutable.common import MODE_CHECK, MODE_READ, derive_mutable_keys
+    from allmydata.mutable.retrieve import Retrieve
+    from allmydata.mutable.repairer import MustForceRepairError
+    from allmydata.interfaces import SDMF_VERSION, MDMF_VERSION
+    from allmydata.monitor import Monitor
+    from allmydata.uri import WriteableSSKFileURI
+    from allmydata.util.consumer import MemoryConsumer
+    case = {"kind": "scenario", "sc": sc}
+    S, k, n = sc["servers"], sc["k"], sc["n"]
+    saved_seg = publish.DEFAULT_MUTABLE_MAX_SEGMENT_SIZE
+    publish.DEFAULT_MUTABLE_MAX_SEGMENT_SIZE = 16
+    try:
+        with grid.Runtime(seed=sc["sched"], policy=sc["policy"]) as rt:
+            g = mc.make_grid("c14o", rt, S, 2, k, n)
+            try:
+                pub, priv = mc.keypair()
+                writekey, _enc, fingerprint = derive_mutable_keys((pub, priv))
+                si = WriteableSSKFileURI(writekey, fingerprint).storage_index
+                num = {g.serverid(i): i for i in range(S)}
+                perm = [num[srv.get_serverid()] for srv in g.broker.get_servers_for_psi(si)]
+                writer = g.clients[0]
+                contents = [bytes.fromhex(x) for x in sc["contents"]]
+                registry = {}
+                node = None
+                for j, data in enumerate(contents):
+                    off = [perm[x] for x in sc["offline"][j]]
+                    for i in off:
+                        g.remove_server(i)
+                    try:
+                        if node is None:
+                            node = rt.wait(writer.create_mutable_file(
+                                MutableData(data), version=MDMF_VERSION if sc["fmt"] == "m" else SDMF_VERSION,
+                                unique_keypair=(pub, priv)))
+                        else:
+                            rt.wait(node.overwrite(MutableData(data)))
+                        ctx.count("offline-publish-ok")
+                    except grid.Stuck:
+                        raise
+                    except Exception as e:
+                        ctx.count("offline-publish-error:" + mc.exc_name(e))
+                    for i in off:
+                        g.add_server(i)
+                    for cs in mc.disk_state(g, si).values():
+                        if cs and cs[0] != "?" and (cs[1], cs[2]) not in registry:
+                            registry[(cs[1], cs[2])] = data
+                if node is None:
+                    return
+                rnode = g.clients[1].create_node_from_uri(node.get_uri())
+
+                def full_view():
+                    """(full MODE_CHECK servermap, best recoverable verinfo, its contents read through Retrieve on that map)"""
+                    smap = rt.wait(rnode.get_servermap(MODE_CHECK))
+                    best = smap.best_recoverable_version()
+                    data = None
+                    if best is not None:
+                        m = MemoryConsumer()
+                        try:
+                            rt.wait(Retrieve(rnode, g.clients[1].storage_broker, smap.copy(), best).download(m))
+                            data = b"".join(m.chunks)
+                        except grid.Stuck:
+                            raise
+                        except Exception as e:
+                            data = ("error", mc.exc_name(e))
+                    return smap, best, data
+
+                smap0, best0, data0 = full_view()
+                head = [key for key in [(perm.index(i), sh) for (i, sh, _p) in g.share_files(si)]]
+                ctx.count("offline-versions-on-grid:%d" % min(3, len(set(smap0.make_versionmap()))))
+                # ---- download_version(map, v): only v's contents, or an error
+                readmap = rt.wait(rnode.get_servermap(MODE_READ))
+                rrec = readmap.recoverable_versions()
+                for v in list(smap0.make_versionmap()):
+                    try:
+                        got = rt.wait(rnode.download_version(readmap, v))
+                        err = None
+                    except grid.Stuck:
+                        raise
+                    except Exception as e:
+                        got, err = None, mc.exc_name(e)
+                    want = registry.get((v[0], v[1]))
+                    ctx.case(("dlver", k, n, S, v in rrec, err))
+                    ctx.count("offline-download_version-%s:%s" % ("located" if v in rrec else "not-in-map", err or "data"))
+                    if got is not None and want is not None and got != want:
+                        other = [key for key, c in registry.items() if c == got]
+                        ctx.violation("download_version(servermap, version seq %d) returned the contents of %s" % (
+                            v[0], "version seq %d" % other[0][0] if other else "no published version"), case,
+                            "download-version-returned-other-version" + ("" if v in rrec else "-for-unlocated-version"))
+                # ---- check, then repair
+                try:
+                    cr = rt.wait(rnode.check(Monitor(), verify=sc["verify"]))
+                except grid.Stuck:
+                    raise
+                except Exception as e:
+                    ctx.count("offline-check-error:" + mc.exc_name(e))
+                    return
+                nvers = len(set(cs[1:3] for cs in mc.disk_state(g, si).values() if cs and cs[0] != "?"))
+                if cr.is_healthy() and nvers > 1:
+                    ctx.violation("check says healthy although shares of %d versions are on the grid" % nvers, case,
+                                  "healthy-false-positive-grid-offline")
+                disk_before = mc.disk_state(g, si)
+                try:
+                    if sc["how"] == "repair":
+                        rr = rt.wait(rnode.repair(cr, force=sc["force"]))
+                        success = bool(rr.get_successful())
+                        outcome = "ok" if success else "unsuccessful"
+                    else:
+                        crr = rt.wait(rnode.check_and_repair(Monitor(), verify=sc["verify"]))
+                        success = bool(crr.get_repair_successful()) if crr.get_repair_attempted() else False
+                        outcome = "ok" if success else ("unsuccessful" if crr.get_repair_attempted() else "not-attempted")
+                except grid.Stuck:
+                    raise
+                except MustForceRepairError:
+                    success, outcome = False, "MustForce"
+                except Exception as e:
+                    success, outcome = False, "error:" + mc.exc_name(e)
+                ctx.count("offline-%s:%s" % (sc["how"], outcome))
+                smap1, best1, data1 = full_view()
+                ctx.case(("orepair", sc["how"], sc["force"], outcome, k, n, S, best0 and best0[0], best1 and best1[0]))
+                if success:
+                    if isinstance(data0, bytes) and data1 != data0:
+                        older = [key for key, c in registry.items() if c == data1 and best0 is not None and key[0] < best0[0]]
+                        ctx.violation("%s reported success; before it the best recoverable version (seq %s) held %r, afterwards "
+                                      "the best version (seq %s) holds %r" % (
+                                          sc["how"], best0 and best0[0], data0[:24], best1 and best1[0],
+                                          data1[:24] if isinstance(data1, bytes) else data1), case,
+                                      "repair-republished-older-content" if older else "repair-changed-contents")
+                elif outcome != "not-attempted":
+                    if mc.disk_state(g, si) != disk_before:
+                        ctx.violation("a repair that did not report success (%s) changed shares" % outcome, case,
+                                      "failed-repair-wrote")
+                # whatever the repair reported: the newest recoverable contents are not replaced by older ones
+                if isinstance(data0, bytes) and isinstance(data1, bytes) and data1 != data0 and not success:
+                    ctx.violation("after a repair that reported %s the best recoverable contents changed" % outcome, case,
+                                  "contents-changed-by-unsuccessful-repair")
+            finally:
+                g.close()
+    except grid.Stuck:
+        ctx.count("grid-stuck")
+    except Exception:
+        import traceback
+        ctx.disagree("offline-grid scenario could not be driven to the end", case, traceback.format_exc()[-800:], None)
+        ctx.count("grid-harness-exception")
+    finally:
+        publish.DEFAULT_MUTABLE_MAX_SEGMENT_SIZE = saved_seg
+
+
 def truth_before_unrec(before, rec_before):
     return [(key, shs) for key, shs in before.items() if key not in rec_before]
 
@@ -503,6 +688,9 @@ def run(ctx):
         c = ctx.replay["case"]
         if c.get("kind") in ("check", "repair"):
             cases = [(c11.parse_replay_vers(c["vers"]), [tuple(o) for o in c["ops"]])]
+        elif c["sc"].get("family") == "offline":
+            run_offline_scenario(ctx, c["sc"])
+            return
         else:
             sc = c["sc"]
             sc["damage"] = [tuple(d) for d in sc["damage"]]
@@ -517,6 +705,9 @@ def run(ctx):
     acc = {"lines": [], "impl": [], "cases": []}
     for sc in scs:
         run_scenario(ctx, sc, acc)
+    if not ctx.replay:
+        for _ in range(ctx.budget(40, 600)):
+            run_offline_scenario(ctx, gen_offline(ctx.rng))
     model = ctx.model(acc["lines"])
     if model is not None:
         # need_repair is internal to the checker object on the grid path: compare the other fields
